@@ -240,7 +240,7 @@ pub open spec fn empty_span_ok(last: SourceSpan, pos: Position, r: SourceSpan) -
 //@  |             ensures
 //@  |                 builder.v_tracks() ==> builder.v_depth() >= 1, // ACCEPT is only taken with a result on the builder's stack
 //@  before 1 "match action {"
-//@  |             assert(action == first_action::<S, P, TK, NTK, D>(self.definition, state, next_token.kind));
+//@  |             assert(action == first_action::<S, P, TK, NTK, D>(self.definition, state, next_token.kind)); // [C02, C15] the action taken is the first of the cell; an empty cell is an error
 //@  |             let ghost pos0 = context.v_position();
 //@  |             let ghost stack0 = parse_stack.stack@;
 //@  before 1 "builder.shift_action(context, next_token);"
